@@ -677,7 +677,8 @@ def C13(g, tier):
         nt = any(len(o) != 1 for o in F[0]) and len(lf[2][1]) > 0
         yield sx(["term", "vec", ["lfmap_native", F, Lx(lf)]]), nt
         yield sx(["map_arrow_witness", F, lf]), nt
-        yield sx(["law", "vec", ["to_strict", ["lfmap_native", F, Lx(lf)]], ["to_strict", ["lfmap", F, Lx(lf)]]]), nt
+        if not lf[2][3][0]:   # the agreement clause quantifies over quotient-free diagrams
+            yield sx(["law", "vec", ["to_strict", ["lfmap_native", F, Lx(lf)]], ["to_strict", ["lfmap", F, Lx(lf)]]]), nt
 
 
 def otable(g, labels=2, elabels=3):
